@@ -218,6 +218,9 @@ Fixpoint c05_clauses (cfg : config) (c : chk) (s : state) (l : list (op * obs)) 
   | (o, b) :: r =>
     let s' := observe s o b in
     let here := match o with
+                | OVotes _ | OEvidence _ | OUpPause _ =>
+                    (* a BeginBlocker that panics stops the chain as surely as an unusable update *)
+                    match o_res b with RPanic => ["blocker-panic:" ++ op_label o] | _ => [] end
                 | OEndBlock => end_block_clauses c s s' b
                 | OGenesis _ => (* the InitChain response is the whole new consensus set *)
                     match o_res b with
